@@ -1262,6 +1262,8 @@ def judge_full(ctx: Ctx, st: Optional[LeanStatus], res: Result, cases: List[Dict
         res.count(f"{label}:cases")
         if "shape" in case:
             res.count(f"{label}:shape:" + case["shape"])
+        if "input _" in case["schema"] or "enum _" in case["schema"]:
+            res.count(f"{label}:cases-with-underscore-type-names")
         if obs["skipped"]:
             res.count(f"{label}:skipped-unpruned-broken")
         base = obs["combos"]["gen_tt"]
